@@ -2,6 +2,7 @@ package props
 
 import (
 	"math"
+	"math/big"
 	"sort"
 	"strings"
 
@@ -50,6 +51,9 @@ var c15Callbacks = []c15Callback{
 	{`function($v,$i){$i}`, 2, func(v interface{}, i int, a []interface{}) interface{} { return float64(i) }},
 	{`function($v,$i,$a){$count($a)}`, 3, func(v interface{}, i int, a []interface{}) interface{} { return float64(len(a)) }},
 	{`function(){7}`, 0, func(v interface{}, i int, a []interface{}) interface{} { return 7.0 }},
+	{`function()<:n>{7}`, 0, func(v interface{}, i int, a []interface{}) interface{} { return 7.0 }}, // a declared arity of 0: called without arguments
+	{`function($v)<x:x>{$v}`, 1, func(v interface{}, i int, a []interface{}) interface{} { return v }},
+	{`function($v,$i)<xn:n>{$i}`, 2, func(v interface{}, i int, a []interface{}) interface{} { return float64(i) }},
 	{`function($v,$i,$a,$z){[$i, $exists($z)]}`, 4, func(v interface{}, i int, a []interface{}) interface{} { return []interface{}{float64(i), false} }},
 	{`function($v){$v = 1 ? "one" : nothing}`, 1, func(v interface{}, i int, a []interface{}) interface{} {
 		if f, ok := v.(float64); ok && f == 1 {
@@ -546,8 +550,30 @@ func init() {
 						c15Expect(x, prog, doc, ref.U, false)
 						return
 					}
-					c15Expect(x, prog, doc, sum/float64(len(list)), math.IsInf(sum, 0))
+					// the mean of finite numbers is representable even when their total is not
+					total := new(big.Rat)
+					for _, v := range list {
+						total.Add(total, new(big.Rat).SetFloat64(v.(float64)))
+					}
+					mean, _ := total.Quo(total, new(big.Rat).SetInt64(int64(len(list)))).Float64()
+					c15Expect(x, prog, doc, mean, false)
 				}
+			}},
+			{Name: "distinct-computed", Quick: []int{1}, ShardDepth: -1, Run: func(c *explore.Chooser, x *explore.Ctx, _ int) {
+				// values are compared by value whatever function produced them
+				twins := [][2]string{{`$count([0])`, `1`}, {`$length("ab")`, `2`}, {`$split("a,b", ",")`, `["a","b"]`}, {`$keys({"a":1})`, `"a"`},
+					{`{"n": $count([1])}`, `{"n": 1}`}, {`[$length("a")]`, `[1]`}, {`$map([5], function($v,$i){$i})`, `0`}}
+				t := twins[c.Choose(len(twins))]
+				form := c.Choose(3)
+				c.Done()
+				prog := []string{"$count($distinct([" + t[1] + ", " + t[0] + "]))", "$count($distinct([[" + t[0] + "], [" + t[1] + "]]))", "$count($distinct([" + t[0] + ", " + t[1] + ", " + t[0] + "]))"}[form]
+				if strings.HasPrefix(t[1], "[") {
+					// an array-valued function result is flattened by a surrounding array constructor: compare inside objects
+					prog = `$count($distinct([{"k": ` + t[0] + `}, {"k": ` + t[1] + `}]))`
+				}
+				got := c16Expect(x, prog, map[string]interface{}{}, 1.0, false, true)
+				x.Outcome(got.Short())
+				x.Nontrivial()
 			}},
 			{Name: "shuffle-varies", Quick: []int{1}, ShardDepth: -1, Run: func(c *explore.Chooser, x *explore.Ctx, _ int) {
 				c.Done()
